@@ -13,7 +13,9 @@ import subprocess
 import time
 
 VERIF = os.path.dirname(os.path.dirname(os.path.abspath(__file__)))
-WORK = os.path.join(VERIF, '.work')
+# one scratch directory per check process (./check exports VERIF_WORK), so that
+# two runs of the same check at the same time cannot remove each other's files
+WORK = os.environ.get('VERIF_WORK') or os.path.join(VERIF, '.work')
 JAR = '/opt/veriftools/tla/tla2tools.jar'
 DEPS = '/opt/veriftools/tla/CommunityModules-deps.jar'
 
